@@ -29,9 +29,9 @@ var commonAssumptions = []string{
 
 var props = map[string]propCfg{
 	"C19": {
-		Require: []string{"reports_checked", "status_calls_checked", "bytes_relayed_client_to_server", "bytes_relayed_server_to_client", "messages_listed_in_reports"},
-		BinRace: true, QuickBatches: 5, ThoroughBatches: 40, Parallel: 5, Bins: []string{"proxy"}, Level: "exploration", Floor: 20,
-		Rule:        "(a) sessions against the real proxy binary (race detector, built from the current tree) on TCP loopback: the harness is the upstream server, the client and the HTTP poller; 1-3 sequential connections per proxy process; client->server and server->client streams (up to 64 kB per session) made of valid frames, CRC-valid frames with malformed content (short MSM, oversize masks), hostile mixes, random bytes, and text/frames spelling HTML (<script>, </div>, <img ...>); chunk sizes {1,17,512,4096,random} with 0-2 ms gaps. Oracle: upstream-received = client-sent and client-received = server-sent per connection; the process is alive after every session (a death is reported with its panic/race text; a silent stall is judged from the SIGQUIT goroutine dump, otherwise inconclusive); every /status/report body is matched against the pinned page template and its five traffic-derived parts must contain no raw '<' or '>'; the messages listed (parsed back from their hex dumps) must be at most 20 and a contiguous run, in order, of the same build's sequential framing of the bytes sent so far. (b) in process: ReportFeed.Status over a 20-message queue and client/server buffers filled from such traffic, same checks plus list length. Non-trivial: every session / Status call (all carry mixed traffic). Distinct by hash of the case.",
+		Require: []string{"reports_checked", "status_calls_checked", "concurrent_status_calls_checked", "bytes_relayed_client_to_server", "bytes_relayed_server_to_client", "messages_listed_in_reports"},
+		Race:    true, BinRace: true, QuickBatches: 5, ThoroughBatches: 40, Parallel: 5, Bins: []string{"proxy"}, Level: "exploration", Floor: 20,
+		Rule:        "(a) sessions against the real proxy binary (race detector, built from the current tree) on TCP loopback: the harness is the upstream server, the client and the HTTP poller; 1-3 sequential connections per proxy process; client->server and server->client streams (up to 64 kB per session) made of valid frames, CRC-valid frames with malformed content (short MSM, oversize masks), hostile mixes, random bytes, and text/frames spelling HTML (<script>, </div>, <img ...>); chunk sizes {1,17,512,4096,random} with 0-2 ms gaps. Oracle: upstream-received = client-sent and client-received = server-sent per connection; the process is alive after every session (a death is reported with its panic/race text; a silent stall is judged from the SIGQUIT goroutine dump, otherwise inconclusive); every /status/report body is matched against the pinned page template and its five traffic-derived parts must contain no raw '<' or '>'; the messages listed (parsed back from their hex dumps) must be at most 20 and a contiguous run, in order, of the same build's sequential framing of the bytes sent so far. the status page is polled continuously while traffic flows. (b) in process: ReportFeed.Status over a 20-message queue and client/server buffers filled from such traffic, same checks plus list length; (c) in process: the queue fed round after round while two goroutines produce status reports and one records buffers, every report checked, a deadlock judged logically. Non-trivial: every session / Status call (all carry mixed traffic). Distinct by hash of the case.",
 		Assumptions: commonAssumptions,
 	},
 	"C16": {
@@ -59,9 +59,9 @@ var props = map[string]propCfg{
 		Assumptions: commonAssumptions,
 	},
 	"C18": {
-		Require: []string{"sequences_enumerated", "linearizable_histories", "long_run_additions"},
+		Require: []string{"sequences_enumerated", "linearizable_histories", "long_run_additions", "stress_operations"},
 		Race:    true, QuickBatches: 8, ThoroughBatches: 64, Parallel: 8, Level: "exploration", Floor: 500, MayBeExhaustive: true,
-		Rule:        "(1) exhaustive: ALL sequences over {Add, snapshot} of length 14 (quick) / 18 (thorough) for every capacity 1..8, each step compared with a 'last N of a list' model and len(Items) read under the queue's own RLock; (2) long runs of 10^5 (quick) / 10^7 (thorough) additions for capacities {1,2,3,5,8,20} with EVERY snapshot checked; (3) concurrent histories: capacities {1,2,3,8}, 1-3 adders x 1-3 snapshot readers, 10-30 operations each, unique message ids, call/return stamps from one atomic counter recorded at the client boundary, checked with porcupine (linearizability against the list model; timeout = inconclusive), size bound checked online, race detector on, GOMAXPROCS in {2,4,16}. Non-trivial: more additions than the capacity (sequential) / at least two concurrent clients (concurrent). Distinct by (capacity, sequence) or hash of the history parameters.",
+		Rule:        "(1) exhaustive: ALL sequences over {Add, snapshot} of length 14 (quick) / 18 (thorough) for every capacity 1..8, each step compared with a 'last N of a list' model and len(Items) read under the queue's own RLock; (2) long runs of 10^5 (quick) / 10^7 (thorough) additions for capacities {1,2,3,5,8,20} with EVERY snapshot checked; (3) tight-loop stress: 1-2 adders and 1-3 snapshot readers, 20000 operations each without yields, every snapshot within capacity and in arrival order per adder, termination judged logically (deadlock = every repository goroutine blocked and no progress for six seconds); (4) concurrent histories: capacities {1,2,3,8}, 1-3 adders x 1-3 snapshot readers, 10-30 operations each, unique message ids, call/return stamps from one atomic counter recorded at the client boundary, checked with porcupine (linearizability against the list model; timeout = inconclusive), size bound checked online, race detector on, GOMAXPROCS in {2,4,16}. Non-trivial: more additions than the capacity (sequential) / at least two concurrent clients (concurrent). Distinct by (capacity, sequence) or hash of the history parameters.",
 		Assumptions: append([]string{"porcupine v1.3.0 decides linearizability of the recorded histories correctly"}, commonAssumptions...),
 	},
 	"C13": {
